@@ -17,6 +17,9 @@ structure State where
   seen : List Nat := []
   /-- facade level: events are printed as `Litep2p::next_event` hands them to the user -/
   facade : Bool := false
+  /-- the substream-id counter (`next_substream_id`): a counter of its own, advanced by `substream` only — connection
+  ids never come from it (`Manager.step .alloc` / `dial` / `dialAddress` take them from `Mgr.nextConn`) -/
+  nextSub : Nat := 0
 
 def init : State := {}
 
@@ -333,6 +336,20 @@ def step (st : State) (line : String) : State × String :=
     if !ps.todo.isEmpty then (st, "busy")
     else
     match ts with
+    -- the address store of a peer, read-only
+    | ["scores", p] =>
+      match p.toNat? with
+      | some p =>
+        let shown := sortStrings (((ps.g.m.peers p).addresses).map (fun r => s!"{showAddr r.addr}={r.score}"))
+        (st, s!"sc={if shown.isEmpty then "-" else joinWith "," shown}")
+      | none => (st, "bad-op")
+    -- a protocol opens a substream: the id comes from the substream counter, the manager is not involved
+    | ["substream", p] =>
+      match p.toNat? with
+      | some p =>
+        if p = 0 || p > 64 then (st, "bad-op")
+        else ({ st with nextSub := st.nextSub + 1 }, s!"sub={st.nextSub}")
+      | none => (st, "bad-op")
     | ["addknown", p, as] =>
       match p.toNat?, (as.splitOn ",").mapM parseAddr with
       | some p, some as => run (see st [p]) ps (.addKnown p as) none
